@@ -3,12 +3,17 @@ pub mod c02;
 pub mod c03;
 pub mod c04;
 pub mod c05;
+pub mod c06;
+pub mod c07;
 pub mod c08;
 pub mod c09;
 pub mod c12;
 pub mod c13;
 pub mod c15;
+pub mod c16;
 pub mod c17;
+pub mod c18;
+pub mod c19;
 
 use crate::core::{Prop, Tier};
 use crate::supervise::{Aggregate, SanitizerReport};
